@@ -22,7 +22,9 @@ RULE = ("for each configuration (outputs file / devlog / stdout / devnull / sock
         "second thread was parked inside the call; distinct by (k, output, depth, real)")
 
 ALL_DS = "".join("%{" + n + (":1" if n == "cgroup" else (":HOME" if n == "env" else "")) + "}|" for n in gen.ALL_SOURCES) + "%{cmdline}"
-CONFIGS = [("file", "%{cmdline}"), ("file", ALL_DS), ("file", "%{snoopy_threads} %{cmdline}"), ("devlog", "%{cmdline}"), ("stdout", "%{snoopy_threads}:%{cmdline}"),
+# data sources on their error / fallback paths (format too long for strftime, unset variable, no utmp record for the terminal ...)
+ERR_DS = "%{datetime:" + "%c" * 12 + "};%{datetime:};%{env:NOT_SET};%{failure};%{cgroup:nosuchcontroller};%{ipaddr};%{tty_username};%{login};%{domain}|%{cmdline}"
+CONFIGS = [("file", "%{cmdline}"), ("file", ALL_DS), ("file", ERR_DS), ("file", "%{snoopy_threads} %{cmdline}"), ("devlog", "%{cmdline}"), ("stdout", "%{snoopy_threads}:%{cmdline}"),
            ("devnull", "%{cmdline}"), ("socket", "%{tid}:%{cmdline}")]
 
 
@@ -375,7 +377,7 @@ def main():
         d.close()
         ctx.finish()
     jobs = []
-    cfgs = CONFIGS if not ctx.quick else CONFIGS[:5]
+    cfgs = CONFIGS if not ctx.quick else CONFIGS[:6]
     for okind, fmt in cfgs:
         for depth in (1, 2):
             for real in (False, True):
